@@ -50,6 +50,11 @@ def run(tier, seed, replay):
                 bs = 512
             else:
                 bsb, l2, rb = hist.rand_params(rng, top.cluster_bits, allow_default=False)
+                if rng.random() < 0.6:
+                    # the largest legal block size: compressed data is then rarely block aligned
+                    bsb = min(12, top.cluster_bits)
+                    l2 = (max(l2[0], bsb), max(l2[1], 2 << max(l2[0], bsb))) if l2 else l2
+                    rb = (max(rb[0], bsb), max(rb[1], 2 << max(rb[0], bsb))) if rb else rb
                 while top.size % (1 << bsb) and bsb > 9:
                     bsb -= 1
                 g = hist.Geom(top.cluster_bits, top.refcount_order, top.size, bsb, l2, rb)
